@@ -260,6 +260,11 @@ def run_rect(ctx, spec):
     rng = ctx.rng
     for it in range(spec['n']):
         geo, desc = geos.rectangular(rng, nx=rng.randint(1, 6), ny=rng.randint(1, 6), nz=rng.randint(1, 5), convention=0)
+        if rng.random() < 0.4 and geo.num_connections:
+            # connections stored with the column of the larger name first, as many real geometry files list them
+            desc['connections_reversed_every'] = rng.choice([1, 2, 3])
+            ctx.count('geometries_with_reversed_connections')
+            geos.reverse_stored_connections(geo, desc['connections_reversed_every'])
         if geo.num_layers > 2 and rng.random() < 0.7:
             desc['surfaces'] = geos.set_surfaces(geo, rng, rng.choice(['inside', 'mixed', 'above', 'boundary']), frac=0.5)
         ops = []
